@@ -196,7 +196,7 @@ def exponent(rng, bits):
 
 
 def gen(rng, tier):
-    n = 30000 if tier == 'quick' else 1000000
+    n = 30000 if tier == 'quick' else 4000000
     exh = 4 if tier == 'quick' else 5
     for bits in range(0, exh + 1):
         r = range(1 << bits)
